@@ -42,6 +42,9 @@ contract("C12.update_error_with_char_pos",
          ],
          modifies=["error_object.char_index", "error_object.char_index_end", "error_object.has_char_index",
                    "error_object.has_char_index_end", "error_object.message"],
+         ghost={"init": {"suffix_added": "0"},
+                "update": [("error_object['message'] += f'  Problem spans string indexes: {new_start}, {new_end}'",
+                            "suffix_added = suffix_added + 1")]},
          lets={"s": "old(error_object.span_start)", "e": "old(error_object.span_end)",
                "a": "old(error_object.index_in_tag) if old(error_object.has_index_in_tag) else 0"},
          ensures={
@@ -51,6 +54,9 @@ contract("C12.update_error_with_char_pos",
              "C12.offsets.select_fragment": "implies(s is not None and not (old(error_object.has_source_tag) and old(error_object.source_tag._tag)),"
                                             " error_object.char_index == s + a and error_object.char_index_end == "
                                             "(s + old(error_object.index_in_tag_end) if old(error_object.has_index_in_tag_end) else e))",
+             # "the location suffix appears in the message once": a second decoration must not append it again
+             "C12.suffix.appended_only_on_first_decoration": "suffix_added <= 1 and implies(old(error_object.has_char_index), suffix_added == 0)"
+                                                             " and implies(s is not None and not old(error_object.has_char_index), suffix_added == 1)",
              "C12.offsets.untouched_when_not_located": "implies(s is None, error_object.has_char_index == old(error_object.has_char_index)"
                                                        " and error_object.char_index == old(error_object.char_index))",
          })
